@@ -400,6 +400,15 @@ func (x *Explorer) applyContract(st *State, f *Frame, con *Contract, allArgs []V
 	}
 	env.oldVars = env.vars
 	env.callK = int64(refBase + x.nextRef)
+	// a method with a pointer receiver is verified for a non-nil receiver only: the call has
+	// to establish that (nothing is known about the callee on a nil receiver)
+	if con.RecvType != "" && len(allArgs) > 0 && x.eng.hasBody(con) {
+		if rp, ok := allArgs[0].(VPtr); ok && rp.Alloc == nil && rp.Ref != nil && !(rp.Ref.IsLit() && rp.Ref.Int.Sign() != 0) {
+			g := Neq(rp.Ref, IntLit(0))
+			x.emit(st, "pre", "receiver-non-nil", site, g, filepath.Base(con.File))
+			st.assume(g)
+		}
+	}
 	// preconditions
 	for _, cl := range con.Requires {
 		if g, ok := x.goalOf(st, env, cl, "pre", site); ok {
